@@ -37,7 +37,7 @@ OpProp(op, kind) ==
   (IF op \in EntryOps THEN {"C14"} \cup KindProp(kind)
    ELSE IF op \in RawEntryOps THEN {"C14"}
    ELSE IF op \in {"retain", "extract_if", "t_extract_if", "drain"} THEN {"C10"} \cup KindProp(kind)
-   ELSE IF op \in {"iter", "into_iter"} THEN {"C09"}
+   ELSE IF op \in {"iter", "into_iter", "iter_default"} THEN {"C09"}
    ELSE IF op \in ParOps THEN {"C19"}
    ELSE IF op \in {"serde_roundtrip", "serde_de", "serde_de_in_place"} THEN {"C20"}
    ELSE IF op \in {"clone", "clone_from", "eq"} THEN {"C11"} \cup (IF kind = "set" /\ op = "eq" THEN {"C07"} ELSE {})
